@@ -284,7 +284,11 @@ func (conn *wsConn) reading() {
 
 		switch t {
 		case websocket.BinaryMessage, websocket.TextMessage:
-			conn.readPacket(data)
+			// an undecodable message closes the conn, like an undecodable frame on tcp
+			if err = conn.readPacket(data); err != nil {
+				conn.Close(err)
+				return
+			}
 		}
 
 	}
